@@ -732,3 +732,39 @@ Proof.
   intros Hr Hrep Hwf. apply script_crash_safe; [exact (proj1 init_inv)|exact Hr|exact Hrep|exact Hwf|].
   intros s' o HI Hop _. apply step_safe; assumption.
 Qed.
+
+(* ---------- the sharp form: a crash DURING operation [o], after [ops1] were acknowledged ---------- *)
+Lemma run_app c : forall a s b, run c s (a ++ b) =
+  let '(s1, r1, t1) := run c s a in let '(s2, r2, t2) := run c s1 b in (s2, r1 ++ r2, t1 ++ t2).
+Proof.
+  induction a as [|o a IH]; intros s b; cbn [app run].
+  - destruct (run c s b) as [[s2 r2] t2]. reflexivity.
+  - destruct (step c s o) as [[s1 r] t]. rewrite IH. destruct (run c s1 a) as [[s2 r2] t2]. destruct (run c s2 b) as [[s3 r3] t3].
+    rewrite app_assoc. reflexivity.
+Qed.
+
+Lemma run_ready_app c : forall a s b, run_ready c s (a ++ b) -> run_ready c s a /\ run_ready c (fst (fst (run c s a))) b.
+Proof.
+  induction a as [|o a IH]; intros s b H; cbn [app run_ready run] in *; [split; [exact I|exact H]|].
+  destruct H as [H1 H2]. destruct (step c s o) as [[s1 r] t] eqn:Es. cbn [fst] in *. destruct (IH s1 b H2) as [Ha Hb].
+  destruct (run c s1 a) as [[s2 r2] t2]. cbn [fst] in *. auto.
+Qed.
+
+Theorem crash_during_op c ops1 o s0 :
+  run_ready c init (ops1 ++ [o]) -> rep s0 (s_dir init) -> trace_wf (snd (run c init (ops1 ++ [o]))) ->
+  let s1 := fst (fst (run c init ops1)) in
+  exists f1, fs_run s0 (snd (run c init ops1)) = Some f1 /\
+    forall img, image_of f1 (snd (step c s1 o)) img ->
+      img_ok img (abs s1) \/ img_ok img (abs (fst (fst (step c s1 o)))).
+Proof.
+  intros Hready Hrep Hwf. cbv zeta. destruct (run_ready_app c ops1 init [o] Hready) as [Hr1 Hr2].
+  rewrite run_app in Hwf. pose proof (run_refines c ops1 init (proj1 init_inv) Hr1) as Href.
+  destruct (run c init ops1) as [[s1 r1] t1] eqn:E1. cbn [fst snd] in *. destruct Href as (HI1 & _).
+  cbn [run] in Hwf. destruct (step c s1 o) as [[s2 r2] t2] eqn:E2. cbn [snd fst] in *. rewrite app_nil_r in Hwf.
+  unfold trace_wf in Hwf. apply Forall_app in Hwf as [Hwf1 Hwf2].
+  assert (Hsafe : forall s' o', Inv s' -> op_ready c s' o' -> In o' ops1 -> step_safe_at c s' o') by (intros; apply step_safe; assumption).
+  pose proof (script_crash_safe c ops1 init s0 (proj1 init_inv) Hr1 Hrep) as Hsc. rewrite E1 in Hsc. cbn [snd fst] in Hsc.
+  destruct (Hsc Hwf1 Hsafe) as [(f1 & Hrun & Hrep1) _].
+  exists f1. split; [exact Hrun|]. cbn [run_ready] in Hr2. destruct Hr2 as [Hop _].
+  pose proof (step_safe c s1 o HI1 Hop f1 Hrep1) as Hst. rewrite E2 in Hst. destruct (Hst Hwf2) as [_ Himg]. exact Himg.
+Qed.
